@@ -574,8 +574,17 @@ class Workspace(AbstractContextManager):
             for entity_type in ["group", "object"]:
                 uuids = self._io_call(H5Reader.fetch_uuids, entity_type, mode="r")
 
+                # entities listed as a child of another one are loaded with their parent
+                nested: set = set()
                 for uid in uuids:
-                    if isinstance(self.get_entity(uid)[0], Entity):
+                    nested.update(
+                        self._io_call(
+                            H5Reader.fetch_children, uid, entity_type, mode="r"
+                        )
+                    )
+
+                for uid in uuids:
+                    if uid in nested or isinstance(self.get_entity(uid)[0], Entity):
                         continue
 
                     recovered_object = self.load_entity(uid, entity_type)
